@@ -124,3 +124,24 @@ Definition V_RACE_END_NEVER : N := 152.
 Definition check_closerace (c : cr_case) : codes :=
   (if existsb (fun n => 2 <=? n) (cr_reports c) then [V_RACE_END_TWICE] else []) ++
   (if existsb (N.eqb 0) (cr_reports c) then [V_RACE_END_NEVER] else []).
+
+(* ---- C09, the hub's part: Hub.ReportServiceShipID and Hub.SetupRemoteDevice hand the call to
+   the application before they return, so that the order of the connection's calls (proved on the
+   connection model: the id report precedes the setup) is the order the application sees.
+   Log codes: 1 RemoteSKIConnected, 2 ServiceShipIDUpdate with that SKI and id,
+   3 SetupRemoteDevice, 4 another ServiceShipIDUpdate, 0 anything else. *)
+Record hid_case := mkHubId { hi_log : list N }.
+
+Fixpoint before_in (a b : N) (l : list N) : bool :=   (* the first b is preceded by an a *)
+  match l with
+  | [] => true
+  | x :: r => if N.eqb x b then false else if N.eqb x a then true else before_in a b r
+  end.
+
+Definition V_HUB_ID_AFTER_SETUP : N := 141.
+Definition V_HUB_ID_NOT_ONCE : N := 142.
+
+Definition check_hubid (c : hid_case) : codes :=
+  (if list_eqb N.eqb (hi_log c) [1; 2; 3] then [] else [1]) ++
+  (if before_in 2 3 (hi_log c) then [] else [V_HUB_ID_AFTER_SETUP]) ++
+  (if Nat.eqb (length (filter (fun x => N.eqb x 2 || N.eqb x 4) (hi_log c))) 1 then [] else [V_HUB_ID_NOT_ONCE]).
